@@ -29,6 +29,26 @@ LIST_AX = [
     ForAll([l, x], Implies(Not(mem(l, x)), idx(app(l, x), x) == ln(l)), patterns=[app(l, x)]),
     ForAll([l, x, i], Implies(And(0 <= i, i < ln(l)), at(app(l, x), i) == at(l, i)), patterns=[at(app(l, x), i)]),
     ForAll([l, x], at(app(l, x), ln(l)) == x, patterns=[app(l, x)]),
+    ForAll([l, x], Implies(And(nodup(l), Not(mem(l, x))), rem(app(l, x), x) == l), patterns=[rem(app(l, x), x)]),
+]
+# list.insert(i, x) for 0 <= i <= len (the only way the repository calls it after its own index() look-ups)
+ins = Function('ins', LT.z, IntSort(), T.z, LT.z)
+LIST_INS_AX = [
+    ForAll([l, i, x], Implies(And(0 <= i, i <= ln(l)), ln(ins(l, i, x)) == ln(l) + 1), patterns=[ins(l, i, x)]),
+    ForAll([l, i, x, y], Implies(And(0 <= i, i <= ln(l)), mem(ins(l, i, x), y) == Or(mem(l, y), y == x)), patterns=[mem(ins(l, i, x), y)]),
+    ForAll([l, i, x], Implies(And(0 <= i, i <= ln(l), nodup(l), Not(mem(l, x))), And(nodup(ins(l, i, x)), idx(ins(l, i, x), x) == i)), patterns=[ins(l, i, x)]),
+    ForAll([l, i, x, y], Implies(And(0 <= i, i <= ln(l), mem(l, y), y != x, nodup(l), Not(mem(l, x))), idx(ins(l, i, x), y) == If(idx(l, y) >= i, idx(l, y) + 1, idx(l, y))), patterns=[idx(ins(l, i, x), y)]),
+]
+# list concatenation l1 + l2
+cat = Function('cat', LT.z, LT.z, LT.z); l2_ = Const('l2_', LT.z)
+LIST_CAT_AX = [
+    ForAll([l, l2_], ln(cat(l, l2_)) == ln(l) + ln(l2_), patterns=[cat(l, l2_)]),
+    ForAll([l, l2_, x], mem(cat(l, l2_), x) == Or(mem(l, x), mem(l2_, x)), patterns=[mem(cat(l, l2_), x)]),
+    ForAll([l, l2_, i], Implies(And(0 <= i, i < ln(l)), at(cat(l, l2_), i) == at(l, i)), patterns=[at(cat(l, l2_), i)]),
+    ForAll([l, l2_, i], Implies(And(ln(l) <= i, i < ln(l) + ln(l2_)), at(cat(l, l2_), i) == at(l2_, i - ln(l))), patterns=[at(cat(l, l2_), i)]),
+    ForAll([l, l2_, x], Implies(mem(l, x), idx(cat(l, l2_), x) == idx(l, x)), patterns=[idx(cat(l, l2_), x)]),
+    ForAll([l, l2_, x], Implies(And(Not(mem(l, x)), mem(l2_, x)), idx(cat(l, l2_), x) == ln(l) + idx(l2_, x)), patterns=[idx(cat(l, l2_), x)]),
+    ForAll([l, l2_], Implies(And(nodup(l), nodup(l2_), ForAll([x], Not(And(mem(l, x), mem(l2_, x))))), nodup(cat(l, l2_))), patterns=[cat(l, l2_)]),
 ]
 # hierarchy: parent map par : Task -> Task (null = no parent)
 PAR = ArraySort(T.z, T.z)
@@ -97,6 +117,22 @@ class ListPlugin:
         if v.s == LT: return v.e
         raise Unsupported(f'not a list: {v.s}')
 
+    def assign(self, eng, s, target, v):
+        # obj.field = <list value> where the field holds a list object: the value (e.g. the result of sorted()) is a NEW list object
+        if isinstance(target, ast.Attribute) and v.s == LT:
+            s2, o = eng.ev1(target.value, s)
+            if o.s.is_ref and eng.classes.get(o.s.cls, {}).get(eng.mangle(target.attr)) == LR:
+                r = fresh('newlist', LR); s2.assume(r != LR.null)
+                for fld in ('_Task__children', '_Task__predecessors', '_Task__successors'):
+                    arr = eng.field(s2, 'Task', fld); tt = Const('tt_', T.z)
+                    s2.assume(ForAll([tt], arr[tt] != r, patterns=[arr[tt]]))
+                eng.write(s2, 'PyList.elems', Store(eng.field(s2, 'PyList', 'elems'), r, v.e))
+                s2.oblige('safe/AttributeError-None', o.e != o.s.null, f'@{target.lineno}')
+                key = o.s.cls + '.' + eng.mangle(target.attr)
+                eng.write(s2, key, Store(eng.field(s2, o.s.cls, eng.mangle(target.attr)), o.e, r))
+                return [(s2, FALL)]
+        return NotImplemented
+
     def cmp(self, eng, st, k, l_, r, line):
         if k in ('In', 'NotIn') and r.s in (LR, LT):
             if l_.s == NONE: cnd = mem(self.listval(eng, st, r, line), null)
@@ -125,6 +161,24 @@ class ListPlugin:
                 s.assume(ForAll([tt], arr[tt] != r, patterns=[arr[tt]]))
             eng.write(s, 'PyList.elems', Store(eng.field(s, 'PyList', 'elems'), r, lv))
             return [(s, V(r, LR))]
+        if isinstance(f, ast.Attribute) and f.attr in ('insert', 'index'):
+            out = []
+            for s, recv in eng.ev(f.value, st):
+                if isinstance(recv, Raise): out.append((s, recv)); continue
+                if recv.s != LR: return NotImplemented
+                s.oblige('safe/AttributeError-None', recv.e != LR.null, f'list @{e.lineno}')
+                cur = Select(eng.field(s, 'PyList', 'elems'), recv.e)
+                if f.attr == 'index':
+                    s, v = eng.ev1(e.args[0], s)
+                    s.oblige('safe/ValueError-list.index', mem(cur, v.e), f'@{e.lineno}')
+                    out.append((s, V(idx(cur, v.e), INT)))
+                else:
+                    s, iv_ = eng.ev1(e.args[0], s); s, v = eng.ev1(e.args[1], s)
+                    s.oblige('req@list.insert/index-within-0-and-len', And(0 <= iv_.e, iv_.e <= ln(cur)), f'@{e.lineno}')     # outside this range Python clamps: not modelled
+                    nl = fresh('lv', LT); s.assume(nl == ins(cur, iv_.e, eng.coerce(v, T)))
+                    eng.write(s, 'PyList.elems', Store(eng.field(s, 'PyList', 'elems'), recv.e, nl))
+                    out.append((s, V(None, NONE)))
+            return out
         if isinstance(f, ast.Attribute) and f.attr in ('append', 'remove', 'clear'):
             out = []
             for s, recv in eng.ev(f.value, st):
@@ -137,7 +191,11 @@ class ListPlugin:
                 else:
                     s, v = eng.ev1(e.args[0], s)
                     if f.attr == 'remove':
-                        s.oblige('safe/ValueError-list.remove', mem(cur, v.e), f'@{e.lineno}'); new = rem(cur, v.e)
+                        if 'ValueError' in eng.fc.get('raises', {}):        # the function's contract declares the exception: fork instead of obliging
+                            out.append((s.fork(Not(mem(cur, v.e))), Raise('ValueError'))); s = s.fork(mem(cur, v.e))
+                        else:
+                            s.oblige('safe/ValueError-list.remove', mem(cur, v.e), f'@{e.lineno}')
+                        new = rem(cur, v.e)
                     else:
                         new = app(cur, eng.coerce(v, T))
                 nl = fresh('lv', LT); s.assume(nl == new)
